@@ -305,6 +305,34 @@ EDITS = [e_add_type, e_add_field, e_retype_field, e_add_arg, e_retype_arg, e_arg
          e_change_kind]
 
 
+def change_key(c):
+    """Identifying attributes of a SchemaChange object, read generically (attr name, element name)."""
+    out = []
+    for attr, v in sorted(vars(c).items()):
+        if attr == "severity" or attr.endswith("_str") or isinstance(v, type):
+            continue
+        if isinstance(v, str):
+            out.append([attr, v])
+        elif hasattr(v, "name"):
+            out.append([attr, v.name])
+        else:
+            out.append([attr, "?" + type(v).__name__])
+    return out
+
+
+def model_pair(old_sdl, new_sdl):
+    """(real changes with keys, request for the Lean diff model)"""
+    import canon_schema as cs
+    from py_gql import build_schema
+    from py_gql.schema.differ import diff_schema
+    o, n = build_schema(old_sdl), build_schema(new_sdl)
+    real = sorted([type(c).__name__, int(c.severity), change_key(c)] for c in diff_schema(o, n))
+    req = {"op": "diff", "min": 0, "old": cs.dump_schema(o, include_builtin=True), "new": cs.dump_schema(n, include_builtin=True)}
+    for side in ("old", "new"):
+        req[side]["directives"] = [d for d in req[side]["directives"] if d["name"] not in ("include", "skip", "deprecated")]
+    return real, req
+
+
 def changes(old_sdl, new_sdl, min_severity=None):
     from py_gql import build_schema
     from py_gql.schema.differ import diff_schema
@@ -365,6 +393,12 @@ def check_pair(ctx, rng, edit_name, old_d, new_d, expected, element, extra, dire
             fails.append(("min-severity-not-a-filter:%s" % edit_name, "min_severity=BREAKING is not the BREAKING subset"))
     except Exception as e:
         fails.append(("differ-raises-min-severity:%s" % type(e).__name__, repr(e)))
+    if ctx.model_ok:
+        try:
+            real, req = model_pair(old_sdl, new_sdl)
+            ctx.pending_model.append((edit_name, direction, real, req, old_sdl, new_sdl))
+        except Exception as e:  # noqa
+            ctx.stat("model-pair-skipped:" + type(e).__name__)
     ctx.nontrivial(("edit", edit_name, direction, tuple(sorted(classes))))
     for c in classes:
         ctx.stat("change:" + c)
@@ -424,7 +458,36 @@ def one_case(ctx, seed, want=None):
     return out
 
 
+def flush_model(ctx):
+    """correspondence: real diff_schema vs the Lean model of it, as multisets of (class, severity, key)"""
+    pend = ctx.pending_model
+    if not pend:
+        return
+    answers = ctx.driver.ask([p[3] for p in pend])
+    for (edit_name, direction, real, req, old_sdl, new_sdl), ans in zip(pend, answers):
+        model = sorted([c["cls"], c["sev"], c["key"]] for c in ans.get("changes", []))
+        ctx.count()
+        if model != real:
+            only_real = [c for c in real if c not in model]
+            only_model = [c for c in model if c not in real]
+            cls = sorted({c[0] for c in only_real + only_model})
+            ctx.fail("corr:diff-model:%s" % ",".join(cls), "diff_schema and its Lean model report different changes",
+                     {"old_sdl": old_sdl, "new_sdl": new_sdl, "only_real": only_real[:5], "only_model": only_model[:5]},
+                     kind="correspondence")
+    ctx.extra["diff_model_pairs_compared"] = ctx.extra.get("diff_model_pairs_compared", 0) + len(pend)
+    ctx.pending_model = []
+
+
 def run(ctx):
+    ctx.pending_model = []
+    try:
+        _run(ctx)
+    finally:
+        if ctx.model_ok:
+            flush_model(ctx)
+
+
+def _run(ctx):
     n = ctx.n(150, 2500)
     base = ctx.rng.randrange(1 << 30)
     for i in range(n):
@@ -444,6 +507,7 @@ def run(ctx):
 
 def replay(ctx, data):
     inp = data.get("input", {})
+    ctx.pending_model = []
     if "schema_case_seed" in inp:
         fails = one_case(ctx, inp["schema_case_seed"])
         return not fails
